@@ -1,2 +1,3 @@
 import EdsSpec.C03
+import EdsSpec.C05
 import EdsSpec.C09
